@@ -17,6 +17,7 @@ import concurrent.futures, json, os, re
 from . import lib
 
 JOPT = {"_JAVA_OPTIONS": "-XX:ParallelGCThreads=2"}
+PARTS = ("scan", "rand", "rest")      # the thorough ClientIP space is computed by three TLC processes side by side
 
 
 def _env(ctx):
@@ -44,9 +45,10 @@ def _expect_violation(ctx, module, cfg, what, note):
 
 def spec_checks(ctx, q):
     """model checks of both specifications (positive ones count into states; negative ones must fail)"""
-    pos = [("ClientIPSpace", "ClientIPSpace_mc.cfg" if q else "ClientIPSpace_mc_thorough.cfg", 1,
-            "every case of the generated space is a state: WF, Impl = Ref (single-line headers), NoSpoof, RightMost, ResultShape"),
-           ("TimerPool", "TimerPool_mc.cfg", 2, "2 timers x 2 users x 2 cycles, all interleavings incl. the runtime's Fire: B1 B2 B3, Exclusive"),
+    note = "every case of the generated space is a state: WF, Impl = Ref (single-line headers), NoSpoof, RightMost, ResultShape"
+    pos = [("ClientIPSpace", "ClientIPSpace_mc.cfg", 1, note)] if q else \
+          [("ClientIPSpace", "ClientIPSpace_mc_thorough_%s.cfg" % p, 1, note + " (families: %s)" % p) for p in PARTS]
+    pos += [("TimerPool", "TimerPool_mc.cfg", 2, "2 timers x 2 users x 2 cycles, all interleavings incl. the runtime's Fire: B1 B2 B3, Exclusive"),
            ("TimerPool", "TimerPool_go123.cfg", 2, "Go 1.23 channel semantics, split expiry/send, no drain: B1 B2 B3 hold"),
            ("TimerPool", "TimerPool_fix.cfg", 2, "split expiry/send + the proposed fix (pool only timers whose Stop succeeded): B1 B2 B3 hold"),
            ("TimerPool", "TimerPool_misuse.cfg", 2, "a user may release twice: an active timer is never handed out without panic (B4)")]
@@ -59,7 +61,7 @@ def spec_checks(ctx, q):
             "expiry and channel send as two runtime steps (Go < 1.23): Stop reports false, the drain finds nothing, the send lands "
             "after Put/Get/Reset (known finding X03-timer-stale-tick-window)"),
            ("TimerPool", "TimerPool_misuse_neg.cfg", "NoTrap", "after a double release initTimer's panic is reachable")]
-    with concurrent.futures.ThreadPoolExecutor(max_workers=3 if q else 4) as ex:
+    with concurrent.futures.ThreadPoolExecutor(max_workers=3 if q else 5) as ex:
         fp = [ex.submit(lib.spec_check, ctx, m, c, w, 2400, dict(JOPT, **_env(ctx)), 2, None, n) for m, c, w, n in pos]
         fn = [ex.submit(_expect_violation, ctx, m, c, what, n) for m, c, what, n in neg]
         for f in fp + fn:
@@ -105,14 +107,18 @@ def rerun(ctx, case_lines):
 def run(ctx):
     q = ctx.quick
     drv = lib.go_build("x03")
-    with concurrent.futures.ThreadPoolExecutor(max_workers=3) as ex:
+    with concurrent.futures.ThreadPoolExecutor(max_workers=6) as ex:
         fs = ex.submit(spec_checks, ctx, q) if not os.environ.get("VERIF_X03_NOSPEC") else None   # development switch
-        fa = ex.submit(_gen, ctx, "ClientIPGen", "ClientIPGen_quick.cfg" if q else "ClientIPGen_thorough.cfg", "ip_cases.ndjson")
+        fa = [ex.submit(_gen, ctx, "ClientIPGen", "ClientIPGen_quick.cfg", "ip_cases.ndjson")] if q else \
+             [ex.submit(_gen, ctx, "ClientIPGen", "ClientIPGen_thorough_%s.cfg" % p, "ip_cases_%s.ndjson" % p) for p in PARTS]
         fb = ex.submit(_gen, ctx, "TimerPoolGen", "TimerPoolGen_quick.cfg" if q else "TimerPoolGen_thorough.cfg", "timer_cases.ndjson")
-        ipf, nip = fa.result()
+        ip = []
+        for f in fa:        # one numbering over the parts
+            for l in lib.read_lines(f.result()[0]):
+                ip.append(re.sub(r'^\{"ev":"Case","id":\d+,', '{"ev":"Case","id":%d,' % (len(ip) + 1), l))
+        nip = len(ip)
         tf, nt = fb.result()
         # the real code, while the model checks are still running
-        ip = lib.read_lines(ipf)
         dflt = [l for l in ip if '"via":"default"' in l]      # own processes: nothing may have touched the package default
         opt = [l for l in ip if '"via":"default"' not in l]
         nproc = 4 if q else 12
